@@ -158,7 +158,7 @@ var intLits = []intLit{
 	// not integers
 	{"abc", 0, 0, bad}, {"1.5", 0, 0, bad}, {"-", 0, 0, bad}, {"+", 0, 0, bad}, {"--1", 0, 0, bad}, {"1-", 0, 0, bad},
 	{"1,2", 0, 0, bad}, {"1 2", 0, 0, bad}, {"0x", 0, 0, bad}, {"1e", 0, 0, bad}, {"true", 0, 0, bad}, {"NaN", 0, 0, bad},
-	{"1x", 0, 0, bad}, {"x1", 0, 0, bad}, {"null", 0, 0, bad}, {"1/2", 0, 0, bad}, {"%31", 0, 0, bad},
+	{"1x", 0, 0, bad}, {"x1", 0, 0, bad}, {"x", 0, 0, bad}, {"null", 0, 0, bad}, {"1/2", 0, 0, bad}, {"%31", 0, 0, bad},
 }
 
 type floatLit struct {
@@ -189,7 +189,7 @@ var floatLits = []floatLit{
 	{" 1.5", 1.5, loose, false}, {"1.5 ", 1.5, loose, false}, {"1.5\n", 1.5, loose, false},
 	// not numbers
 	{"abc", 0, bad, false}, {"1,5", 0, bad, false}, {"1.5.2", 0, bad, false}, {"--1", 0, bad, false}, {"1e", 0, bad, false}, {"e3", 0, bad, false},
-	{"-", 0, bad, false}, {".", 0, bad, false}, {"1.5f", 0, bad, false}, {"1.5x", 0, bad, false}, {"true", 0, bad, false}, {"1 5", 0, bad, false},
+	{"-", 0, bad, false}, {".", 0, bad, false}, {"1.5f", 0, bad, false}, {"1.5x", 0, bad, false}, {"x", 0, bad, false}, {"true", 0, bad, false}, {"1 5", 0, bad, false},
 	{"null", 0, bad, false}, {"1/2", 0, bad, false},
 }
 
@@ -294,6 +294,25 @@ type lit struct {
 // denote looks the text up in the tables. Unknown texts (possible only in a
 // hand-edited replay file) are reported as such and never judged.
 func denote(tpe, format, text string) lit {
+	l := denoteTable(tpe, format, text)
+	if t2 := strings.Trim(text, " \t"); !l.known && t2 != text && t2 != "" && !(tpe == "string" && format == "") {
+		// blanks around a listed text: the listed text's verdict, never better than "open"
+		if l2 := denoteTable(tpe, format, t2); l2.known {
+			if l2.sp == canon {
+				l2.sp = loose
+			}
+			return l2
+		}
+	}
+	if !l.known && (tpe == "integer" || tpe == "number" || tpe == "boolean") && strings.ContainsAny(strings.TrimSpace(text), ",| \t") {
+		// an item produced by splitting with another separator: it still holds a separator
+		// character between other characters, so it is no literal of a numeric or boolean type
+		return lit{true, bad, val{}}
+	}
+	return l
+}
+
+func denoteTable(tpe, format, text string) lit {
 	switch tpe {
 	case "string":
 		if tab, ok := fmtLits[format]; ok {
@@ -583,7 +602,7 @@ func listRule(d Decl, items []string) expect {
 	vals := make([]val, len(items))
 	hasBad, open := false, false
 	for i, it := range items {
-		if it == "" {
+		if it == "" || (d.ItemType != "string" && strings.TrimSpace(it) == "") {
 			vals[i] = zeroOf(d.ItemType)
 			if !(d.ItemType == "string" && d.ItemFormat == "") || !d.AllowEmpty {
 				// an empty item of a non-string type: refusal or the zero value; an empty item where
